@@ -55,8 +55,16 @@ def check_term(acc: Acc, cls: str, p, h: float, xs: list[float]) -> None:
         acc.violate("is_monotonic", {"term": cls}, case0, mono, bool(term.is_monotonic()), f"{cls}.is_monotonic()")
     pts = xs + [math.nan]
     arr = np.array(pts)
+    keep = arr.copy()
     y1 = term.membership(arr)
     y2 = term.membership(arr.reshape(-1, 1))
+    y1_again = term.membership(arr)
+    if not np.array_equal(arr, keep, equal_nan=True):
+        acc.violate("input-array-modified", {"term": cls}, case0, "x unchanged", "x overwritten", f"{cls}.membership modifies the caller's array")
+        return
+    if not np.array_equal(np.asarray(y1), np.asarray(y1_again), equal_nan=True):
+        acc.violate("not-repeatable", {"term": cls}, case0, "same values", "differ", f"{cls}.membership gives different values when called twice")
+        return
     if np.shape(y1) != arr.shape or np.shape(y2) != (len(pts), 1):
         acc.violate("array-shape", {"term": cls}, case0, [arr.shape], [np.shape(y1), np.shape(y2)],
                     f"{cls}: array evaluation does not preserve the shape")
